@@ -58,7 +58,8 @@ def install(w, rule_name, content_spec):
         return smt.conj(cl)
 
     def ensures(s0, s, self, node, is_mixed_content, errs, result=None):
-        cl = {}
+        from .tree import no_new_nodes
+        cl = {"no-new-nodes": no_new_nodes(s0, s)}
         if errs is None:
             cl["top:accepts-only-valid"] = accept(s0, node, is_mixed_content)
         else:
@@ -84,4 +85,5 @@ def install(w, rule_name, content_spec):
                          "lelem": lambda s0, r, errs, **kw: (r == errs) if errs is not None else z3.BoolVal(False)},
                    mod=lambda s0, r, **kw: z3.BoolVal(False), result_ty="none", modular=False)
     con.raises_subclasses = True
+    con.accept = accept
     return con
